@@ -830,6 +830,17 @@ theorem optStmt_allOf (name s : Bytes) : AllOf G0 (L "value") (optStmt name s).i
 theorem wfScalar_vts {v : PVal} (h : wfScalar v = true) : ∃ s, vts v = some s := by
   cases v <;> simp [wfScalar] at h <;> exact ⟨_, rfl⟩
 
+/-- the text between the quotes of the literal `value_to_string` writes for a scalar is the promised literal `lit` -/
+theorem unquote_vts {v : PVal} {s : Bytes} (hw : wfScalar v = true) (h : vts v = some s) : unquote s = lit v := by
+  cases v with
+  | int n =>
+    simp only [vts, Option.some.injEq] at h
+    subst h
+    exact C12.token_slice (decBytes n)
+  | str t => simp only [vts, Option.some.injEq] at h; subst h; rfl
+  | bytes t => simp only [vts, Option.some.injEq] at h; subst h; rfl
+  | _ => simp [wfScalar] at hw
+
 theorem execItem_ok (s : Bytes) : ∃ f, execItem (some s) = .ok f ∧ AllOf G0 execN f.intern := by
   refine ⟨_, rfl, ?_⟩
   rw [intern_append]
@@ -890,7 +901,7 @@ theorem gateKids_allOf (l : List Bytes) (h : l.all gateLabels.contains = true) :
 
 /-- one branch of the chain: well-formed value in, no exception, invariant kept -/
 theorem runAct_inv (uris : List (Option Bytes)) (st : St) (v : PVal) (a : Act) (ha : actOKb a = true)
-    (hw : wfAct uris a v = true) (hi : Inv st) : ∃ st', runAct uris st v a = .ok st' ∧ Inv st' := by
+    (hw : wfAct a v = true) (hi : Inv st) : ∃ st', runAct uris st v a = .ok st' ∧ Inv st' := by
   cases a with
   | pass => exact ⟨st, rfl, hi⟩
   | profOpt name =>
@@ -902,20 +913,10 @@ theorem runAct_inv (uris : List (Option Bytes)) (st : St) (v : PVal) (a : Act) (
   | blkConst k label text =>
     exact ⟨_, rfl, inv_app hi k (stmt_allOf (args := [_]) ha)⟩
   | uris =>
-    have hu : ∃ us, uris.mapM id = some us := by
-      simp only [wfAct, List.all_eq_true] at hw
-      clear ha hi
-      induction uris with
-      | nil => exact ⟨[], rfl⟩
-      | cons u us ih =>
-        obtain ⟨r, hr⟩ := ih (fun x hx => hw x (by simp [hx]))
-        have := hw u (by simp)
-        cases u with
-        | none => simp at this
-        | some s => exact ⟨s :: r, by simp [hr]⟩
-    obtain ⟨us, hus⟩ := hu
-    exact ⟨st.app .httpGet (stmt (b "uri") [C12.valueToStringStr (joinComma us)]), by simp only [runAct, joinUris, hus],
-      inv_app hi .httpGet (stmt_allOf (args := [_]) uri_fact)⟩
+    simp only [runAct]
+    split
+    · exact ⟨st, rfl, hi⟩
+    · exact ⟨_, rfl, inv_app hi .httpGet (stmt_allOf (args := [_]) uri_fact)⟩
   | recover =>
     cases v with
     | recover l =>
@@ -975,8 +976,8 @@ theorem runAct_inv (uris : List (Option Bytes)) (st : St) (v : PVal) (a : Act) (
 
 /-! ### Part 3e: the whole loop and the statements after it -/
 
-theorem wfSetting_act {uris : List (Option Bytes)} {idx : Nat} {v : PVal} (h : wfSetting uris (idx, v) = true) :
-    wfAct uris (actionOf idx v) v = true := by
+theorem wfSetting_act {idx : Nat} {v : PVal} (h : wfSetting (idx, v) = true) :
+    wfAct (actionOf idx v) v = true := by
   unfold wfSetting at h
   unfold actionOf
   split at h
@@ -992,7 +993,7 @@ theorem wfSetting_act {uris : List (Option Bytes)} {idx : Nat} {v : PVal} (h : w
     · exact h
 
 theorem runSettings_inv (uris : List (Option Bytes)) (cfg : List (Nat × PVal)) :
-    ∀ st, cfg.all (wfSetting uris) = true → Inv st → ∃ st', runSettings uris st cfg = .ok st' ∧ Inv st' := by
+    ∀ st, cfg.all wfSetting = true → Inv st → ∃ st', runSettings uris st cfg = .ok st' ∧ Inv st' := by
   induction cfg with
   | nil => intro st _ hi; exact ⟨st, rfl, hi⟩
   | cons kv rest ih =>
@@ -1034,7 +1035,7 @@ theorem finalize_valid {st : St} (hi : Inv st) : ValidTree G0 (finalize st).inte
   obtain ⟨f, hm, hl, hs⟩ := hr
   exact ⟨f, C10.idsOK_has G0 ids_G0 hm, hl, derives_block hs hp6⟩
 
-theorem total_and_valid {cfg : List (Nat × PVal)} {uris : List (Option Bytes)} (h : WellFormedCfg cfg uris = true) :
+theorem total_and_valid {cfg : List (Nat × PVal)} {uris : List (Option Bytes)} (h : WellFormedCfg cfg = true) :
     ∃ t, fromBeaconConfig cfg uris = .ok t ∧ ValidTree G0 t.intern := by
   simp only [WellFormedCfg, Bool.and_eq_true] at h
   obtain ⟨st, hs, hi⟩ := runSettings_inv uris cfg St.init h.2 inv_init
@@ -1421,12 +1422,6 @@ theorem str_roundtrip (s : Txt) (h : noBackslash s = true) : C12.stringTokenToBy
   · show c ≠ bsl
     intro e; subst e
     simp [noBackslash, hc] at h
-
-theorem wfText_noBackslash (s : Bytes) (h : wfText s = true) : noBackslash s = true := by
-  simp only [wfText, List.all_eq_true, Bool.and_eq_true, bne_iff_ne] at h
-  simp only [noBackslash, Bool.not_eq_eq_eq_not, Bool.not_true, List.contains_eq_mem, decide_eq_false_iff_not]
-  intro hm
-  exact (h 92 hm).2 rfl
 
 theorem replicateX_noBackslash (n : Nat) : noBackslash (List.replicate n 88) = true := by
   simp only [noBackslash, Bool.not_eq_eq_eq_not, Bool.not_true, List.contains_eq_mem, decide_eq_false_iff_not,
@@ -2075,22 +2070,6 @@ theorem contrib_recover_nil (uris : List (Option Bytes)) (v : PVal) (kb : Blk) :
   rw [server_not_pathKw]
   rfl
 
-theorem mapM_id_filterMap (uris : List (Option Bytes)) (us : List Bytes) (h : uris.mapM id = some us) :
-    uris.filterMap id = us := by
-  induction uris generalizing us with
-  | nil => simp at h; simp [h]
-  | cons u rest ih =>
-    cases u with
-    | none => simp at h
-    | some x =>
-      simp only [List.mapM_cons, id_eq, Option.pure_def, Option.bind_eq_bind, Option.bind_some] at h
-      cases hr : rest.mapM id with
-      | none => simp [hr] at h
-      | some r =>
-        simp only [hr, Option.bind_some, Option.some.injEq] at h
-        subst h
-        simp [ih r hr]
-
 theorem misc_leaf_facts :
     isComment (some (b "option")) = false ∧ nodeInfo (L "value") (some (b "option")) = .leaf Option.none ∧
     leafOK (ctxOf .httpGet) (b "uri") (k "uri") = true ∧
@@ -2116,7 +2095,7 @@ theorem dropLast_concat' (p : List Bytes) (x : Bytes) : (p ++ [x]).dropLast = p 
 /-- the entries a branch adds to every block are the ones the property's table lists for the setting; `c2_recover`
 is only touched by the RECOVER branch -/
 theorem runAct_spec (uris : List (Option Bytes)) (st st' : St) (v : PVal) (a : Act) (s : SpecAct)
-    (hag : agreeB a s = true) (hw : wfAct uris a v = true) (hr : runAct uris st v a = .ok st') :
+    (hag : agreeB a s = true) (hw : wfAct a v = true) (hr : runAct uris st v a = .ok st') :
     (∀ kb, D st' kb = D st kb ++ contrib uris s v kb) ∧
     ((a ≠ .recover ∧ st'.recover = st.recover ∧ s ≠ .recover) ∨
      (∃ l, v = .recover l ∧ st'.recover = l.map recoverOpt ∧ s = .recover ∧ (l.filter (·.isTerm)).length = 1)) := by
@@ -2130,14 +2109,16 @@ theorem runAct_spec (uris : List (Option Bytes)) (st st' : St) (v : PVal) (a : A
     cases s <;> simp [agreeB] at hag
     rename_i key
     subst hag
-    obtain ⟨sv, hsv⟩ := wfScalar_vts (by simpa [wfAct] using hw)
+    have hws : wfScalar v = true := by simpa [wfAct] using hw
+    obtain ⟨sv, hsv⟩ := wfScalar_vts hws
     simp only [runAct, hsv, Except.ok.injEq] at hr
     subst hr
     refine ⟨app_case (kb := .profile) rfl ?_, .inl ⟨by simp, rfl, by simp⟩⟩
     rw [show ctxOf .profile = L "value" from rfl, spec_optStmt _ _ _ hoc hoi, leafEntry_opt (pathKw_notList .profile)]
-    simp [specEntries, lit, hsv, pathKw]
+    simp [specEntries, unquote_vts hws hsv, pathKw]
   | blkOpt kb l =>
-    obtain ⟨sv, hsv⟩ := wfScalar_vts (by simpa [wfAct] using hw)
+    have hws : wfScalar v = true := by simpa [wfAct] using hw
+    obtain ⟨sv, hsv⟩ := wfScalar_vts hws
     simp only [runAct, hsv, Except.ok.injEq] at hr
     subst hr
     cases s <;> simp only [agreeB, Bool.and_eq_true, Bool.not_eq_eq_eq_not, Bool.not_true, Bool.false_eq_true] at hag
@@ -2150,7 +2131,7 @@ theorem runAct_spec (uris : List (Option Bytes)) (st st' : St) (v : PVal) (a : A
       obtain ⟨kw, hl, rfl⟩ := leaf_of_agree hag.1 hag.2
       refine ⟨app_case (by simp [specBlock]) ?_, .inl ⟨by simp, rfl, by simp⟩⟩
       rw [spec_stmt' hl, leafEntry_one (pathKw_notList kb)]
-      simp [specEntries, lit, hsv]
+      simp [specEntries, unquote_vts hws hsv]
   | blkConst kb l t =>
     simp only [runAct, Except.ok.injEq] at hr
     subst hr
@@ -2162,15 +2143,16 @@ theorem runAct_spec (uris : List (Option Bytes)) (st st' : St) (v : PVal) (a : A
     rfl
   | uris =>
     cases s <;> simp [agreeB] at hag
-    simp only [runAct, joinUris] at hr
-    cases hm : uris.mapM id with
-    | none => simp [hm] at hr
-    | some us =>
-      simp only [hm, Except.ok.injEq] at hr
-      subst hr
+    simp only [runAct] at hr
+    split at hr
+    · rename_i he
+      cases hr
+      exact ⟨noop_case (.inr (by simp only [specEntries, he, if_true])), .inl ⟨by simp, rfl, by simp⟩⟩
+    · rename_i he
+      cases hr
       refine ⟨app_case (kb := .httpGet) rfl ?_, .inl ⟨by simp, rfl, by simp⟩⟩
       rw [spec_stmt' huri, leafEntry_one (pathKw_notList .httpGet)]
-      simp only [specEntries, mapM_id_filterMap uris us hm, litStr, pathKw]
+      simp only [specEntries, he, Bool.false_eq_true, if_false, litBytes, pathKw]
       rfl
   | recover =>
     cases s <;> simp [agreeB] at hag
@@ -2330,7 +2312,7 @@ theorem finv_init (uris : List (Option Bytes)) : FInv uris [] St.init :=
   ⟨fun kb => by simp [D, St.init, PForest.reparsed, specForest_nil], .inl ⟨rfl, rfl⟩⟩
 
 theorem finv_step {uris : List (Option Bytes)} {done : List (Nat × PVal)} {st st' : St} {kv : Nat × PVal}
-    (hi : FInv uris done st) (hw : wfSetting uris kv = true) (hfresh : ∀ kv' ∈ done, kv'.1 ≠ kv.1)
+    (hi : FInv uris done st) (hw : wfSetting kv = true) (hfresh : ∀ kv' ∈ done, kv'.1 ≠ kv.1)
     (hr : stepOne uris st kv = .ok st') : FInv uris (done ++ [kv]) st' := by
   obtain ⟨hb, hs⟩ := runAct_spec uris st st' kv.2 (actionOf kv.1 kv.2) (specOf kv.1 kv.2) (agree_all _ _)
     (wfSetting_act hw) hr
@@ -2362,7 +2344,7 @@ theorem finv_step {uris : List (Option Bytes)} {done : List (Nat × PVal)} {st s
       simp [hold, this]
 
 theorem runSettings_finv (uris : List (Option Bytes)) (rest : List (Nat × PVal)) :
-    ∀ (done : List (Nat × PVal)) (st st' : St), FInv uris done st → rest.all (wfSetting uris) = true →
+    ∀ (done : List (Nat × PVal)) (st st' : St), FInv uris done st → rest.all wfSetting = true →
       ((done ++ rest).map (·.1)).Nodup → runSettings uris st rest = .ok st' → FInv uris (done ++ rest) st' := by
   induction rest with
   | nil => intro done st st' hi _ _ hr; simp only [runSettings, Except.ok.injEq] at hr; subst hr; simpa using hi
@@ -2661,7 +2643,7 @@ theorem ne_app {st : St} (h : NEInv st) (kb : Blk) {g : PForest} (hg : noEmptyBl
   · exact h kb'
 
 theorem runAct_ne (uris : List (Option Bytes)) (st st' : St) (v : PVal) (a : Act) (ha : actNE a = true)
-    (hg : a = .gate → v.truthy = true) (hw : wfAct uris a v = true) (hi : NEInv st)
+    (hg : a = .gate → v.truthy = true) (hw : wfAct a v = true) (hi : NEInv st)
     (hr : runAct uris st v a = .ok st') : NEInv st' := by
   obtain ⟨huri, halloc, _, hgl⟩ := misc_ne_facts
   cases a with
@@ -2680,8 +2662,8 @@ theorem runAct_ne (uris : List (Option Bytes)) (st st' : St) (v : PVal) (a : Act
   | uris =>
     simp only [runAct] at hr
     split at hr
+    · cases hr; exact hi
     · cases hr; exact ne_app hi _ (ne_stmt _ (.inr (by simp)))
-    · cases hr
   | recover =>
     cases v with
     | recover l => cases hr; exact hi
@@ -2741,7 +2723,7 @@ theorem runAct_ne (uris : List (Option Bytes)) (st st' : St) (v : PVal) (a : Act
     | _ => simp [wfAct] at hw
 
 theorem runSettings_ne (uris : List (Option Bytes)) (cfg : List (Nat × PVal)) :
-    ∀ st st', cfg.all (wfSetting uris) = true → NEInv st → runSettings uris st cfg = .ok st' → NEInv st' := by
+    ∀ st st', cfg.all wfSetting = true → NEInv st → runSettings uris st cfg = .ok st' → NEInv st' := by
   induction cfg with
   | nil => intro st st' _ hi hr; cases hr; exact hi
   | cons kv rest ih =>
@@ -2935,7 +2917,7 @@ theorem litOK_vts {v : PVal} {s : Bytes} (hw : wfScalar v = true) (h : vts v = s
     exact litOK_str _ (by
       simp only [noBackslash, Bool.not_eq_eq_eq_not, Bool.not_true, List.contains_eq_mem, decide_eq_false_iff_not]
       intro hm; exact (hp _ hm).1 rfl)
-  | str t => simp only [vts, Option.some.injEq] at h; subst h; exact litOK_str t (wfText_noBackslash t hw)
+  | str t => simp only [vts, Option.some.injEq] at h; subst h; exact litOK_bytes t
   | bytes t => simp only [vts, Option.some.injEq] at h; subst h; exact litOK_bytes t
   | _ => simp [wfScalar] at hw
 
@@ -3118,21 +3100,6 @@ theorem const_lits :
     litOK (C12.valueToStringStr (b "NtMapViewOfSection")) = true ∧ litOK (C12.valueToStringStr (b "VirtualAllocEx")) = true := by
   decide +kernel
 
-theorem joinComma_noBackslash (us : List Bytes) (h : ∀ u ∈ us, noBackslash u = true) : noBackslash (joinComma us) = true := by
-  have key : ∀ (l : List Bytes), (∀ u ∈ l, (92 : UInt8) ∉ u) → (92 : UInt8) ∉ joinComma l := by
-    intro l
-    induction l with
-    | nil => intro _; simp [joinComma]
-    | cons x xs ih =>
-      intro hx
-      cases xs with
-      | nil => simpa [joinComma] using hx x (by simp)
-      | cons y r =>
-        simp only [joinComma, List.mem_append, List.mem_cons, not_or]
-        refine ⟨⟨hx x (by simp), by decide, by decide, by simp⟩, ih fun u hu => hx u (by simp [hu])⟩
-  simp only [noBackslash, Bool.not_eq_eq_eq_not, Bool.not_true, List.contains_eq_mem, decide_eq_false_iff_not] at h ⊢
-  exact key us h
-
 theorem tk_injKids (l : List (Bool × Bytes)) : tokensOK (injKids l) = true := by
   unfold injKids
   rw [tk_append, Bool.and_eq_true]
@@ -3188,7 +3155,7 @@ theorem tk_app {st : St} (h : TKInv st) (kb : Blk) {g : PForest} (hg : tokensOK 
   · exact h.blocks kb'
 
 theorem runAct_tk (uris : List (Option Bytes)) (st st' : St) (v : PVal) (a : Act) (ha : actOKb a = true)
-    (hk : actTK a = true) (hw : wfAct uris a v = true) (hi : TKInv st) (hr : runAct uris st v a = .ok st') :
+    (hk : actTK a = true) (hw : wfAct a v = true) (hi : TKInv st) (hr : runAct uris st v a = .ok st') :
     TKInv st' := by
   obtain ⟨ct, cf, cn, cv⟩ := const_lits
   cases a with
@@ -3209,20 +3176,10 @@ theorem runAct_tk (uris : List (Option Bytes)) (st st' : St) (v : PVal) (a : Act
     cases hr
     exact tk_app hi _ (tk_stmt _ _ (by simpa using litOK_str t hk))
   | uris =>
-    simp only [runAct, joinUris] at hr
-    cases hm : uris.mapM id with
-    | none => simp [hm] at hr
-    | some us =>
-      simp only [hm, Except.ok.injEq] at hr
-      subst hr
-      have hus := mapM_id_filterMap uris us hm
-      have hnb : ∀ u ∈ us, noBackslash u = true := by
-        intro u hu
-        rw [← hus] at hu
-        simp only [List.mem_filterMap, id_eq, exists_eq_right] at hu
-        simp only [wfAct, List.all_eq_true] at hw
-        exact wfText_noBackslash u (by simpa using hw (some u) hu)
-      exact tk_app hi _ (tk_stmt _ _ (by simpa using litOK_str _ (joinComma_noBackslash us hnb)))
+    simp only [runAct] at hr
+    split at hr
+    · cases hr; exact hi
+    · cases hr; exact tk_app hi _ (tk_stmt _ _ (by simpa using litOK_bytes _))
   | recover =>
     cases v with
     | recover l =>
@@ -3280,7 +3237,7 @@ theorem runAct_tk (uris : List (Option Bytes)) (st st' : St) (v : PVal) (a : Act
     | _ => simp [wfAct] at hw
 
 theorem runSettings_tk (uris : List (Option Bytes)) (cfg : List (Nat × PVal)) :
-    ∀ st st', cfg.all (wfSetting uris) = true → TKInv st → runSettings uris st cfg = .ok st' → TKInv st' := by
+    ∀ st st', cfg.all wfSetting = true → TKInv st → runSettings uris st cfg = .ok st' → TKInv st' := by
   induction cfg with
   | nil => intro st st' _ hi hr; cases hr; exact hi
   | cons kv rest ih =>
@@ -3600,7 +3557,7 @@ theorem vts_decodes {v : PVal} {s : Bytes} (hw : wfScalar v = true) (h : vts v =
     exact str_roundtrip _ (by
       simp only [noBackslash, Bool.not_eq_eq_eq_not, Bool.not_true, List.contains_eq_mem, decide_eq_false_iff_not]
       intro hm; exact (hp _ hm).1 rfl)
-  | str t => simp only [vts, Option.some.injEq] at h; subst h; exact str_roundtrip t (wfText_noBackslash t hw)
+  | str t => simp only [vts, Option.some.injEq] at h; subst h; exact C12.roundtrip t
   | bytes t => simp only [vts, Option.some.injEq] at h; subst h; exact C12.roundtrip t
   | _ => simp [wfScalar] at hw
 
